@@ -379,7 +379,7 @@ def main():
             os.makedirs(fdir)
             env = dict(base_env)
             env["VERIF_STATS"] = os.path.join(fdir, "stats.json")
-            cmd = [fb, "-test.run=^$", "-test.fuzz=^%s$" % fz["name"], "-test.fuzztime=%s" % fz.get("time", "60s"),
+            cmd = [fb, "-test.run=^$", "-test.fuzz=^%s$" % fz["name"], "-test.fuzztime=%s" % os.environ.get("VERIF_FUZZTIME", fz.get("time", "60s")),
                    "-test.fuzzcachedir=" + os.path.join(fdir, "cache"), "-test.timeout=0"]
             r = run_procs([dict(cmd=cmd, cwd=fdir, env=env, log=os.path.join(fdir, "output.log"))], 3600)
             out = open(os.path.join(fdir, "output.log"), errors="replace").read()
